@@ -34,7 +34,6 @@ NOT_APPLICABLE = {
     'C30': 'graph executors are std::vector/std::deque-based with virtual nodes and three schedulers; out of the extractable subset.',
     'C31': 'same as C30 (propagation over std containers and set merging).',
     'C32': "ConcurrentVector's sequential API is ~1300 lines of iterator/std-algorithm code (`std::move`, `move_backward` on custom iterators); only its index arithmetic is extractable and that is claimed under C33.",
-    'C33': 'check not built yet (contracts designed in DESIGN.md section 5, proof not closed in this framework yet)',
     'C35': 'check not built yet (contracts designed in DESIGN.md section 5, proof not closed in this framework yet)',
     'C36': 'check not built yet (contracts designed in DESIGN.md section 5, proof not closed in this framework yet)',
     'C37': 'copy constructor loops to `buffersSize_` | arena with 3 buffers | loop to `buffersPos_` | **run** (ASan): SEGV in `memcpy` copying an arena with 3 buffers',
@@ -350,3 +349,16 @@ CLAIMED['C05'] = dict(
          "'First captured exception': later throwers lose the CAS and their exception is dropped (by design). That wait() looks at the exception only after completion is the C02 wait units. "
          "A functor run inline by schedule() propagating its exception to the caller is documented behaviour and not under contract.",
     technique="CBMC DFCC function contracts, rely/guarantee via interference before each atomic macro on the guard word, throw-flag rendering of try/catch")
+
+CLAIMED['C33'] = dict(
+    category='proof',
+    text="Contracts (CBMC DFCC) on the extracted bodies of ConcurrentVector::bucketAndSubIndex, ConVecBuffer::allocCheckIndex and both allocAsNecessaryImpl overloads (single index and range), "
+         "for the three realloc strategies and a symbolic firstBucketShift_: index -> (bucket, offset) is the bijection onto the bucket geometry (index == START(bucket) + offset, "
+         "offset < CAP(bucket), capacities doubling after the first two buckets); every bucket b has one trigger index START(b) + allocCheckIndex(CAP(b)), and a growth that reserved "
+         "[index, index+len) prepares bucket k exactly when the trigger index of bucket k-1 lies in its range (single index: exactly when index is that trigger) - so, indices being handed "
+         "out disjointly by size_.fetch_add (atomic RMW axiom), every bucket is allocated by exactly one growth; the sizing pass and the assignment pass of the range overload visit the "
+         "same buckets, each at most once, with the bucket's capacity; dispenso's own asserts in the range overload hold; every buffers_ index is inside the table.",
+    note="Quick tier: all indices below 2^24; thorough: below 2^47 (Traits::kMaxVectorSize). Bucket loops are bounded by the number of reachable buckets and unwound completely. detail::log2 by "
+         "its C44 contract. NOT decided: element construction, iterator/reference validity, cached pointers, the spin-wait for a peer's allocation (progress), shrink/clear and the sequential "
+         "API (C32). The single-index path sizes bucket 1 at twice its capacity when triggered from bucket 0 (generous, noted, harmless).",
+    technique="CBMC DFCC function contracts over extracted bodies, ghost bucket index and probe ghosts for the buffer table, constant-bounded loop unwinding")
